@@ -178,6 +178,15 @@ let handle toks =
       string_of_int (int_of_n c) ^ " " ^ mval_to_string (T.MRec r))
   | ["pph"; h] -> res_line (T.parse_page_header (bytes_of_hex h)) (fun (r, c) ->
       string_of_int (int_of_n c) ^ " " ^ mval_to_string (T.MRec r))
+  (* the semantics the theorems are stated with: domain check, norm, to_tval *)
+  | ["sem"; st; m] ->
+      let r = rec_of (parse_mval m) in
+      if st = "fm" then
+        "OK " ^ b01 (T.wfb_file_metadata r) ^ " " ^ mval_to_string (T.MRec (T.norm_file_metadata r)) ^ " "
+        ^ tval_to_string (T.to_tval_file_metadata r)
+      else
+        "OK " ^ b01 (T.wfb_page_header r) ^ " " ^ mval_to_string (T.MRec (T.norm_page_header r)) ^ " "
+        ^ tval_to_string (T.to_tval_page_header r)
   (* specification *)
   | ["sdec"; h] -> (match T.spec_decode (bytes_of_hex h) with Some v -> "OK " ^ tval_to_string v | None -> "NONE")
   | ["sround"; h] ->
